@@ -336,7 +336,7 @@ func (u *Unit) evalGhostCall(call *ast.CallExpr, f *types.Func, st *State) []Val
 		}
 		u.specBind = saved
 		return []Val{v}
-	case "forall", "exists":
+	case "forall", "exists", "forall2", "forall3", "exists2":
 		lit, ok := ast.Unparen(call.Args[0]).(*ast.FuncLit)
 		if !ok {
 			u.fail("quantifier body must be a function literal (%s)", u.pos(call))
@@ -361,7 +361,7 @@ func (u *Unit) evalGhostCall(call *ast.CallExpr, f *types.Func, st *State) []Val
 		ret := lit.Body.List[0].(*ast.ReturnStmt)
 		body := u.evalExpr(ret.Results[0], st)
 		u.specBind = saved
-		return b("(" + f.Name() + " (" + strings.Join(binders, " ") + ") " + body.T + ")")
+		return b("(" + strings.TrimRight(f.Name(), "23") + " (" + strings.Join(binders, " ") + ") " + body.T + ")")
 	case "has":
 		m := u.evalExpr(call.Args[0], st)
 		k := u.evalExpr(call.Args[1], st)
@@ -382,6 +382,16 @@ func (u *Unit) evalGhostCall(call *ast.CallExpr, f *types.Func, st *State) []Val
 		setSort := "(Array " + ks + " Bool)"
 		dom := u.mapDom(st, m, mt)
 		return []Val{{T: ite(eq(m.T, "0"), "((as const "+setSort+") false)", dom), S: setSort, GT: typeOf(u.info, call)}}
+	case "same":
+		a := u.evalExpr(call.Args[0], st)
+		c := u.evalExpr(call.Args[1], st)
+		if a.S == "nil" {
+			a = u.coerceNil(a, c.S)
+		}
+		if c.S == "nil" {
+			c = u.coerceNil(c, a.S)
+		}
+		return b(eq(a.T, c.T))
 	case "setEq":
 		a := u.evalExpr(call.Args[0], st)
 		c := u.evalExpr(call.Args[1], st)
@@ -437,6 +447,49 @@ func (u *Unit) evalGhostCall(call *ast.CallExpr, f *types.Func, st *State) []Val
 			conj = append(conj, v.T)
 		}
 		return b(and(not(eq(x.T, "0")), and(conj...)))
+	case "unchangedExcept":
+		// every field of *p has its old() value, except the named ones
+		pv := u.evalExpr(call.Args[0], st)
+		pt, ok := typeOf(u.info, call.Args[0]).Underlying().(*types.Pointer)
+		if !ok || u.oldState == nil {
+			u.fail("unchangedExcept() needs a pointer argument and a pre-state (%s)", u.pos(call))
+		}
+		stt, ok := pt.Elem().Underlying().(*types.Struct)
+		if !ok {
+			u.fail("unchangedExcept() needs a pointer to a struct (%s)", u.pos(call))
+		}
+		except := map[string]bool{}
+		for _, a := range call.Args[1:] {
+			tv := u.info.Types[a]
+			if tv.Value == nil {
+				u.fail("unchangedExcept(): field names must be constants (%s)", u.pos(call))
+			}
+			except[constantString(tv.Value)] = true
+		}
+		for name := range except {
+			found := false
+			for i := 0; i < stt.NumFields(); i++ {
+				if stt.Field(i).Name() == name {
+					found = true
+				}
+			}
+			if !found {
+				u.fail("unchangedExcept(): %s has no field %q (%s)", pt.Elem(), name, u.pos(call))
+			}
+		}
+		// the pointer itself is evaluated in the old state for the old side
+		oldP := pv
+		var conj []string
+		for i := 0; i < stt.NumFields(); i++ {
+			f := stt.Field(i)
+			if except[f.Name()] {
+				continue
+			}
+			nv := u.loadField(st, pv, pt.Elem(), f)
+			ov := u.loadField(u.oldState, oldP, pt.Elem(), f)
+			conj = append(conj, eq(nv.T, ov.T))
+		}
+		return b(and(conj...))
 	case "allocated":
 		x := u.evalExpr(call.Args[0], st)
 		return b("(<= " + x.T + " " + st.alloc + ")")
